@@ -905,11 +905,29 @@ pub fn gen_co_case(bytes: &[u8], cp: &CoProfile) -> CoCase {
     // inline capacity (32, 61, 64, 256, 1024); their closure futures then
     // share one script per stage
     if c.coin(3) {
-        n = [33usize, 70, 300, 1100][c.choice(4)];
+        n = [33usize, 70, 33, 70, 300, 1100][c.choice(6)];
     }
+    // "mass completion": the source hands out m items back to back and then
+    // pends; all their closure futures stay pending, are then woken together
+    // with the source (FireAll) and complete inside ONE progress() call of the
+    // consumer while the source has its next item ready - with one failure at
+    // any position of that run (consumers count, batch and yield in such runs)
+    let mass = (n == 33 || n == 70) && source == SourceKind::Co && c.coin(150);
+    let mass_m = if mass { 32 + c.choice(n - 31) } else { 0 };
     // source script
     let mut src_script = Vec::new();
-    for _ in 0..n {
+    if mass {
+        for i in 0..n {
+            if i == mass_m {
+                src_script.push(Step::Later);
+            }
+            src_script.push(Step::Yield(true));
+        }
+        if mass_m == n {
+            src_script.push(Step::Later);
+        }
+    }
+    for _ in 0..(if mass { 0 } else { n }) {
         if source == SourceKind::Co {
             let pends = c.weighted(&[(0usize, 55), (1, 30), (2, 15)]);
             for _ in 0..pends {
@@ -922,7 +940,7 @@ pub fn gen_co_case(bytes: &[u8], cp: &CoProfile) -> CoCase {
         }
         src_script.push(if source == SourceKind::Co && c.coin(16) { Step::WakeYield } else { Step::Yield(true) });
     }
-    if source == SourceKind::Co {
+    if source == SourceKind::Co && !mass {
         let pends = c.weighted(&[(0usize, 60), (1, 30), (2, 10)]);
         for _ in 0..pends {
             src_script.push(if c.coin(64) { Step::SelfWake } else { Step::Later });
@@ -937,7 +955,11 @@ pub fn gen_co_case(bytes: &[u8], cp: &CoProfile) -> CoCase {
     let depth = c.weighted(&[(0usize, 12), (1, 30), (2, 30), (3, 28)]);
     let mut stack = Vec::new();
     for _ in 0..depth {
-        let k = c.weighted(&[(0u8, cp.adapters[0]), (1, cp.adapters[1]), (2, cp.adapters[2]), (3, cp.adapters[3])]);
+        let mut k = c.weighted(&[(0u8, cp.adapters[0]), (1, cp.adapters[1]), (2, cp.adapters[2]), (3, cp.adapters[3])]);
+        if mass {
+            // nothing that holds items back
+            k = k % 2;
+        }
         stack.push(match k {
             0 => Adapter::Map,
             1 => Adapter::Enumerate,
@@ -958,7 +980,7 @@ pub fn gen_co_case(bytes: &[u8], cp: &CoProfile) -> CoCase {
             }
         });
     }
-    if cp.saturate && !stack.iter().any(|a| matches!(a, Adapter::Limit(_))) && stack.len() < MAX_DEPTH && c.coin(200) {
+    if cp.saturate && !mass && !stack.iter().any(|a| matches!(a, Adapter::Limit(_))) && stack.len() < MAX_DEPTH && c.coin(200) {
         let at = c.choice(stack.len() + 1);
         stack.insert(at, Adapter::Limit(c.weighted(&[(1usize, 35), (2, 35), (3, 20), (5, 10)])));
     }
@@ -976,6 +998,18 @@ pub fn gen_co_case(bytes: &[u8], cp: &CoProfile) -> CoCase {
     // closure futures
     let mut work: Vec<Vec<LeafSpec>> = Vec::new();
     let mut stage = |c: &mut Cur, fallible: bool| -> Vec<LeafSpec> {
+        if mass {
+            let t = LeafSpec { script: vec![Step::Later, Step::Yield(true)], always: false, hint: 0, dropwake: false };
+            let mut v = vec![t; n];
+            if fallible && c.coin(200) {
+                // anywhere in the run, with a bias to the places where counters and
+                // batches of the usual sizes (16, 32, 61, 64) turn over
+                const EDGES: &[usize] = &[31, 32, 63, 64, 15, 16, 30, 60, 61, 62, 33];
+                let at = if c.coin(128) { EDGES[c.choice(EDGES.len())].min(n - 1) } else { c.choice(n) };
+                v[at].script = vec![Step::Later, Step::Yield(false)];
+            }
+            return v;
+        }
         if n > 12 {
             // one script for all items of this stage, except that a fallible
             // stage lets one item (anywhere) fail now and then
@@ -1032,7 +1066,12 @@ pub fn gen_co_case(bytes: &[u8], cp: &CoProfile) -> CoCase {
     let src_hint = if source == SourceKind::Co { c.weighted(&[(0u8, 140), (1, 60), (2, 56)]) } else { 0 };
     let mut sp = p.clone();
     sp.p_drop = cp.p_drop;
-    let schedule = gen_schedule(&mut c, &sp);
+    let mut schedule = gen_schedule(&mut c, &sp);
+    if mass {
+        let mut s = vec![Action::Poll { reuse: false }, Action::FireAll, Action::Poll { reuse: false }];
+        s.extend(schedule);
+        schedule = s;
+    }
     let no_drain = c.coin(p.p_nodrain);
     let drain: Vec<u8> = (0..32).map(|_| c.byte()).collect();
     CoCase { source, src_script, src_hint, stack, terminal, work, schedule, drain, no_drain }
